@@ -149,6 +149,19 @@ theorem limRead_ok {cfg : Cfg} {i0 : Nat} {cs : CS} (h : CInv cfg i0 cs) (tid v 
       · exact h.reads o (findOpen_mem ho) r hr
     · exact h.reads x hx r hr
 
+theorem infRead_ok {cfg : Cfg} {i0 : Nat} {cs : CS} (h : CInv cfg i0 cs) (tid v : Nat) :
+    CInv cfg i0 (infRead cs tid v) ∧ Frame cs (infRead cs tid v) ∧ (infRead cs tid v).vals = cs.vals ∧
+      (infRead cs tid v).inf = cs.inf ∧ (infRead cs tid v).lim = cs.lim := by
+  unfold infRead
+  split
+  · exact ⟨h, ⟨rfl, rfl, rfl, rfl, rfl, rfl⟩, rfl, rfl, rfl⟩
+  · next o ho =>
+    refine ⟨⟨h.lim, h.vals, ?_, h.rets, h.cnt, h.adm, h.rel, h.ba, h.br⟩, ⟨rfl, rfl, rfl, rfl, rfl, rfl⟩, rfl, rfl, rfl⟩
+    intro x hx r hr
+    rcases mem_setOpen hx with hx | hx
+    · subst hx; exact h.reads o (findOpen_mem ho) r hr
+    · exact h.reads x hx r hr
+
 theorem limWrite_ok {cfg : Cfg} (w : Wf cfg) {i0 : Nat} {cs cs' : CS} (h : CInv cfg i0 cs) (tid : Nat) (k : AKind) (new : Nat)
     (hs : limWrite cfg cs tid k new = some cs') :
     CInv cfg i0 cs' ∧ Frame cs cs' ∧ cs'.vals = cs.vals ++ [new] ∧ cs'.inf = cs.inf ∧ cs'.lim = new := by
@@ -249,7 +262,7 @@ theorem retCheck_ok {cfg : Cfg} {o : OpenOp} {res : Option Nat} {rets rets' : Li
     cases res <;> simp [dRets, hrd]
 
 theorem finOp_ok {cfg : Cfg} {i0 : Nat} {cs cs' : CS} (h : CInv cfg i0 cs) (tid : Nat) (op : TrOp) (res : Option Nat)
-    (hs : finOp cs tid op res = some cs') : StepOk cfg i0 cs cs' (.fin tid op res) := by
+    (hs : finOp cfg cs tid op res = some cs') : StepOk cfg i0 cs cs' (.fin tid op res) := by
   unfold finOp at hs
   split at hs
   · cases hs
@@ -259,6 +272,8 @@ theorem finOp_ok {cfg : Cfg} {i0 : Nat} {cs cs' : CS} (h : CInv cfg i0 cs) (tid 
     · cases hs
     · next hop =>
       have hop' : o.op = op := by simpa using hop
+      split at hs
+      · cases hs
       split at hs
       · cases hs
       · next rets hrc =>
@@ -370,7 +385,9 @@ theorem cstep_ok {cfg : Cfg} (w : Wf cfg) {i0 : Nat} {cs cs' : CS} (h : CInv cfg
       · split at hs
         · next hn =>
           cases hs
-          exact ⟨h, by simp [dVals], by simp [dRets], rfl, rfl, by simp [dInf, hn, hold'], rfl, rfl, rfl, rfl⟩
+          obtain ⟨a, f, b, c, d⟩ := infRead_ok h tid old
+          exact ⟨a, by rw [b]; simp [dVals], by rw [f.rets]; simp [dRets], f.adm, f.rel, by rw [c]; simp [dInf, hn, hold'], d,
+            f.begA, f.finA, f.begR⟩
         · cases hs
       · obtain ⟨a, f, b, c, d⟩ := infWrite_ok h tid k new hs
         exact ⟨a, by rw [b]; simp [dVals], by rw [f.rets]; simp [dRets], f.adm, f.rel, c, d, f.begA, f.finA, f.begR⟩
@@ -378,6 +395,46 @@ theorem cstep_ok {cfg : Cfg} (w : Wf cfg) {i0 : Nat} {cs cs' : CS} (h : CInv cfg
     simp only [cstep] at hs
     cases hs
     exact ⟨h, by simp [dVals], by simp [dRets], rfl, rfl, rfl, rfl, rfl, rfl, rfl⟩
+
+/-- what an accepted End marker says about the result it carries, read off the entry alone: the accessors report the
+configured bounds -/
+def itemOk (cfg : Cfg) : Item → Prop
+  | .fin _ op res => (op.acc = .minL → res = some cfg.min) ∧ (op.acc = .maxL → res = some cfg.max)
+  | _ => True
+
+theorem cstep_itemOk {cfg : Cfg} {cs cs' : CS} (it : Item) (hs : cstep cfg cs it = some cs') : itemOk cfg it := by
+  cases it with
+  | fin tid op res =>
+    simp only [cstep, finOp] at hs
+    split at hs
+    · cases hs
+    · next o ho =>
+      split at hs
+      · cases hs
+      · split at hs
+        · cases hs
+        · next hacc =>
+          have hacc' : accCheck cfg o op.acc res = true := by simpa using hacc
+          unfold accCheck at hacc'
+          refine ⟨?_, ?_⟩
+          · intro hm; rw [hm] at hacc'; simpa using hacc'
+          · intro hm; rw [hm] at hacc'; simpa using hacc'
+  | _ => trivial
+
+theorem crun_itemsOk {cfg : Cfg} (tr : List Item) {cs cs' : CS} (hs : crun cfg cs tr = some cs') :
+    ∀ it ∈ tr, itemOk cfg it := by
+  induction tr generalizing cs with
+  | nil => intro it h; cases h
+  | cons x tl ih =>
+    simp only [crun] at hs
+    split at hs
+    · cases hs
+    · next cs1 h1 =>
+      intro it hm
+      simp only [List.mem_cons] at hm
+      rcases hm with hm | hm
+      · subst hm; exact cstep_itemOk _ h1
+      · exact ih hs it hm
 
 theorem limValues_cons (it : Item) (tl : List Item) : limValues (it :: tl) = dVals it ++ limValues tl := by
   cases it <;> simp [limValues, dVals]
@@ -483,6 +540,190 @@ theorem crun_split {cfg : Cfg} (w : Wf cfg) {i0 : Nat} (a b : List Item) {cs cs'
       · rw [r.begA, s.begA, begunAcq_cons]; omega
       · rw [r.finA, s.finA, endedAcq_cons]; omega
       · rw [r.begR, s.begR, begunRel_cons]; omega
+
+/-! ## readiness decisions -/
+
+theorem findBelow_spec {reads readsI : List Nat} {p : Nat × Nat} (h : findBelow reads readsI = some p) :
+    p.1 ∈ reads ∧ p.2 ∈ readsI ∧ p.2 < p.1 := by
+  unfold findBelow at h
+  obtain ⟨r, hr, hf⟩ := List.exists_of_findSome?_eq_some h
+  simp only [Option.map_eq_some_iff] at hf
+  obtain ⟨n, hn, hp⟩ := hf
+  subst hp
+  have h1 := List.mem_of_find?_eq_some hn
+  have h2 := List.find?_some hn
+  exact ⟨hr, h1, by simpa using h2⟩
+
+theorem findAtOrAbove_spec {reads readsI : List Nat} {p : Nat × Nat} (h : findAtOrAbove reads readsI = some p) :
+    p.1 ∈ reads ∧ p.2 ∈ readsI ∧ p.2 ≥ p.1 := by
+  unfold findAtOrAbove at h
+  obtain ⟨r, hr, hf⟩ := List.exists_of_findSome?_eq_some h
+  simp only [Option.map_eq_some_iff] at hf
+  obtain ⟨n, hn, hp⟩ := hf
+  subst hp
+  have h1 := List.mem_of_find?_eq_some hn
+  have h2 := List.find?_some hn
+  exact ⟨hr, h1, by simpa using h2⟩
+
+/-- a decision agrees with its witnesses: admitted on `seen < lim`, refused on `seen ≥ lim`, `lim` within the bounds -/
+def Dec.ok (cfg : Cfg) (d : Dec) : Prop :=
+  (d.admitted = true → d.seen < d.lim) ∧ (d.admitted = false → d.seen ≥ d.lim) ∧ InB cfg d.lim
+
+structure DInv (cfg : Cfg) (ds : DS) : Prop where
+  pend : ∀ q ∈ ds.pend, q.2.2 < q.2.1 ∧ InB cfg q.2.1
+  decs : ∀ d ∈ ds.decs, d.ok cfg
+
+theorem lookup_mem_pend {l : List (Nat × (Nat × Nat))} {t : Nat} {p : Nat × Nat} (h : lookup l t = some p) : (t, p) ∈ l := by
+  induction l with
+  | nil => simp [lookup] at h
+  | cons x tl ih =>
+    obtain ⟨a, b⟩ := x
+    simp only [lookup] at h
+    split at h
+    · next heq =>
+      cases h
+      have : a = t := by simpa using heq
+      subst this; exact List.mem_cons_self
+    · exact List.mem_cons_of_mem _ (ih h)
+
+/-- the number of decisions an entry adds / of them admitted -/
+def dDec : Item → Nat
+  | .fin _ op _ => if op.role = .acq then 1 else 0
+  | _ => 0
+
+theorem dstep_ok {cfg : Cfg} {i0 : Nat} {cs : CS} {ds ds' : DS} (hc : CInv cfg i0 cs) (hd : DInv cfg ds) (it : Item)
+    (hs : dstep cs ds it = some ds') : DInv cfg ds' := by
+  cases it with
+  | inf tid k old new ok =>
+    simp only [dstep] at hs
+    split at hs
+    · cases hs; exact hd
+    · split at hs
+      · cases hs; exact hd
+      · next o ho =>
+        split at hs
+        · split at hs
+          · next p hp =>
+            cases hs
+            obtain ⟨h1, _, h3⟩ := findBelow_spec hp
+            refine ⟨?_, hd.decs⟩
+            intro q hq
+            simp only [List.mem_cons] at hq
+            rcases hq with hq | hq
+            · subst hq; exact ⟨h3, hc.reads o (findOpen_mem ho) _ h1⟩
+            · exact hd.pend q (List.mem_filter.mp hq).1
+          · cases hs
+        · cases hs; exact hd
+  | fin tid op res =>
+    simp only [dstep] at hs
+    split at hs
+    · split at hs
+      · cases hs; exact hd
+      · next o ho =>
+        split at hs
+        · split at hs
+          · next p hp =>
+            cases hs
+            have hm := hd.pend _ (lookup_mem_pend hp)
+            refine ⟨fun q hq => hd.pend q (List.mem_filter.mp hq).1, ?_⟩
+            intro d hdm
+            simp only [List.mem_append, List.mem_singleton] at hdm
+            rcases hdm with hdm | hdm
+            · exact hd.decs d hdm
+            · subst hdm; exact ⟨fun _ => hm.1, (by intro h; cases h), hm.2⟩
+          · cases hs
+        · split at hs
+          · next p hp =>
+            cases hs
+            obtain ⟨h1, _, h3⟩ := findAtOrAbove_spec hp
+            refine ⟨hd.pend, ?_⟩
+            intro d hdm
+            simp only [List.mem_append, List.mem_singleton] at hdm
+            rcases hdm with hdm | hdm
+            · exact hd.decs d hdm
+            · subst hdm; exact ⟨(by intro h; cases h), fun _ => h3, hc.reads o (findOpen_mem ho) _ h1⟩
+          · cases hs
+    · cases hs; exact hd
+  | begin tid op => simp only [dstep] at hs; cases hs; exact hd
+  | lim tid k old new ok => simp only [dstep] at hs; cases hs; exact hd
+  | oth => simp only [dstep] at hs; cases hs; exact hd
+
+/-- the decisions grow by one per returned acquisition; an admitted one is recorded as admitted -/
+theorem dstep_count {cfg : Cfg} {cs cs' : CS} {ds ds' : DS} (it : Item) (hcs : cstep cfg cs it = some cs')
+    (hs : dstep cs ds it = some ds') : ds'.decs.length = ds.decs.length + dDec it := by
+  cases it with
+  | fin tid op res =>
+    simp only [dstep] at hs
+    split at hs
+    · next hrole =>
+      split at hs
+      · next hno =>
+        -- `cstep` has rejected an End marker without a call in progress
+        simp only [cstep, finOp, hno] at hcs
+        cases hcs
+      · split at hs
+        · split at hs
+          · cases hs; simp [dDec, hrole]
+          · cases hs
+        · split at hs
+          · cases hs; simp [dDec, hrole]
+          · cases hs
+    · next hrole => cases hs; simp [dDec, hrole]
+  | inf tid k old new ok =>
+    simp only [dstep] at hs
+    split at hs
+    · cases hs; rfl
+    · split at hs
+      · cases hs; rfl
+      · split at hs
+        · split at hs
+          · cases hs; rfl
+          · cases hs
+        · cases hs; rfl
+  | begin tid op => simp only [dstep] at hs; cases hs; rfl
+  | lim tid k old new ok => simp only [dstep] at hs; cases hs; rfl
+  | oth => simp only [dstep] at hs; cases hs; rfl
+
+theorem endedAcq_eq_dDec (it : Item) : dEndA it = dDec it := by
+  cases it <;> rfl
+
+/-- an accepted run with decisions is an accepted run, and every decision is justified -/
+theorem crunD_ok {cfg : Cfg} (w : Wf cfg) {i0 : Nat} (tr : List Item) {cs cs' : CS} {ds ds' : DS} (hc : CInv cfg i0 cs)
+    (hd : DInv cfg ds) (hs : crunD cfg cs ds tr = some (cs', ds')) :
+    crun cfg cs tr = some cs' ∧ DInv cfg ds' ∧ ds'.decs.length = ds.decs.length + endedAcq tr := by
+  induction tr generalizing cs ds with
+  | nil =>
+    simp only [crunD] at hs
+    cases hs
+    exact ⟨rfl, hd, by simp [endedAcq]⟩
+  | cons it tl ih =>
+    simp only [crunD] at hs
+    split at hs
+    · next cs1 ds1 h1 h2 =>
+      have s := cstep_ok w hc it h1
+      have d := dstep_ok hc hd it h2
+      obtain ⟨r1, r2, r3⟩ := ih s.inv d hs
+      refine ⟨by simp only [crun, h1]; exact r1, r2, ?_⟩
+      rw [r3, dstep_count it h1 h2, endedAcq_cons, endedAcq_eq_dDec]; omega
+    · cases hs
+
+theorem checkTraceD_run {cfg : Cfg} {v0 i0 : Nat} {tr : List Item} {cs : CS} {ds : DS}
+    (h : checkTraceD cfg v0 i0 tr = some (cs, ds)) :
+    crunD cfg (cinit v0 i0) {} tr = some (cs, ds) ∧ cs.quiet = true := by
+  unfold checkTraceD at h
+  split at h
+  · next cs1 ds1 h1 =>
+    split at h
+    · next hq => cases h; exact ⟨h1, hq⟩
+    · cases h
+  · cases h
+
+/-- what `checkTraceD` accepts, `checkTrace` accepts: every theorem about accepted traces applies -/
+theorem checkTraceD_checkTrace {cfg : Cfg} (w : Wf cfg) {v0 i0 : Nat} (hv : InB cfg v0) {tr : List Item} {cs : CS} {ds : DS}
+    (h : checkTraceD cfg v0 i0 tr = some (cs, ds)) : checkTrace cfg v0 i0 tr = some cs := by
+  obtain ⟨hrun, hq⟩ := checkTraceD_run h
+  obtain ⟨r1, _, _⟩ := crunD_ok w tr (cinit_inv i0 hv) ⟨(by intro q hq; cases hq), (by intro d hd; cases hd)⟩ hrun
+  simp [checkTrace, r1, hq]
 
 theorem checkTrace_run {cfg : Cfg} {v0 i0 : Nat} {tr : List Item} {cs : CS} (h : checkTrace cfg v0 i0 tr = some cs) :
     crun cfg (cinit v0 i0) tr = some cs ∧ cs.openAW = 0 ∧ cs.openRW = 0 := by
